@@ -313,9 +313,6 @@ func (g *Gen) execInstr(st *State, in ssa.Instruction) {
 					continue
 				}
 				g.calleeUse[cs]++
-				if len(cs.Sets) > 0 {
-					g.unsupported("set clauses are not supported at mapupdate pseudo-callees")
-				}
 				binds := map[string]Val{}
 				if len(cs.Params) > 0 {
 					binds[cs.Params[0]] = g.value(st, x.Key)
@@ -326,6 +323,11 @@ func (g *Gen) execInstr(st *State, in ssa.Instruction) {
 				ctx := &specCtx{g: g, st: st, old: g.entry, binds: binds}
 				for _, c := range cs.Requires {
 					g.oblige(st, "requires", "callee "+cs.Name+" "+c.ID, "map update "+name+": "+c.Src, g.evalGoal(ctx, c.E))
+				}
+				// ghost updates (counting the updates, remembering the last key ...)
+				if len(cs.Sets) > 0 {
+					g.applyContract(st, contractApp{what: "callee " + cs.Name, binds: binds, sets: cs.Sets, pure: true, rt: types.NewTuple(),
+						clausePrefix: "callee " + cs.Name + " ", ownNames: true, mutGhosts: cs.MutGhosts})
 				}
 			}
 		}
@@ -417,9 +419,6 @@ func (g *Gen) execInstr(st *State, in ssa.Instruction) {
 					continue
 				}
 				g.calleeUse[cs]++
-				if len(cs.Sets) > 0 {
-					g.unsupported("set clauses are not supported at chansend pseudo-callees")
-				}
 				binds := map[string]Val{}
 				if len(cs.Params) > 0 {
 					binds[cs.Params[0]] = g.value(st, x.X)
